@@ -428,7 +428,7 @@ def replay(lead, inputs, obs):
     import subprocess
     from vp import native
     text = ''
-    for src in ('c06_minmax_replay.cc', 'c06_cmp_replay.cc', 'c06_pi_replay.cc'):
+    for src in ('c06_minmax_replay.cc', 'c06_cmp_replay.cc', 'c06_div_replay.cc', 'c06_pi_replay.cc'):
         if src not in _drv:
             try:
                 _drv[src] = native.build_driver(src, src[:-3], native.MP_SOURCES, ['-O0'])[0]
@@ -451,8 +451,37 @@ def harnesses(tier, seed):
     return hs
 
 
+def h_div():
+    """DivConstraint: the result box is the hull of the four corner quotients (interval division over a denominator box that does not
+    contain zero): the box is never narrowed beyond any corner quotient, and only when all four bounds are finite and the denominator
+    box has one sign.  That the hull of the corners contains every quotient (monotonicity of the double division) is not decided."""
+    L1, U1, L2, U2 = 'g_lb[g_args[0]]', 'g_ub[g_args[0]]', 'g_lb[g_args[1]]', 'g_ub[g_args[1]]'
+    # every quotient <x>1 / <y>2 of the source text is replaced by the ghost value Q_<x><y> (the four corner quotients as opaque numbers: SAT
+    # cannot relate two evaluations of one double division); a quotient over other operands stays a real division
+    corners = ['Q_ll', 'Q_lu', 'Q_ul', 'Q_uu']
+    guard = '(%s > -1e20 && %s < 1e20 && %s > -1e20 && %s < 1e20 && P_l2u2 > 0.0)' % (L1, U1, L2, U2)
+    ens = ') __CPROVER_ensures('.join('(lb_ <= __CPROVER_old(lb_) || lb_ <= %s) && (ub_ >= __CPROVER_old(ub_) || ub_ >= %s)' % (q, q) for q in corners)
+    ens += ') __CPROVER_ensures(!%s ==> (lb_ == __CPROVER_old(lb_) && ub_ == __CPROVER_old(ub_))) __CPROVER_ensures(%s' % (guard, NAR)
+    return h_pc('Div', ens, nargs_req='g_nargs >= 2 && Q_ll == Q_ll && Q_lu == Q_lu && Q_ul == Q_ul && Q_uu == Q_uu',
+                subst=[(r'auto& m = VP_MPD\(\s*GetModel\(\)\s*\);', '', 1), (r'\b([lu])1 / ([lu])2\b', r'Q_\1\2', -1), (r'\bl2 \* u2\b', 'P_l2u2', 1)],
+                extra_parts=['static double VP_M_PracticallyInf(void) { return %s; }\nstatic double VP_M_PracticallyMinusInf(void) { return %s; }\n' % practically(),
+                             'double P_l2u2;   /* the product l2 * u2 of the denominator bounds as an opaque value (its sign says whether the box contains zero) */\ndouble Q_ll, Q_lu, Q_ul, Q_uu;   /* the quotients l1/l2, l1/u2, u1/l2, u1/u2 of the bounds (finite, denominator box without zero) */\n'],
+                pre='Q_ll = nondet_double(); Q_lu = nondet_double(); Q_ul = nondet_double(); Q_uu = nondet_double(); P_l2u2 = nondet_double();',
+                stubs=['PracticallyInf / PracticallyMinusInf (constants read from constr_keeper.h on this run)',
+                       'the four corner quotients <l|u>1 / <l|u>2 of the source text as opaque values'])
+
+
+def practically():
+    txt = extract.blank_comments(extract.read_repo(CK))
+    a = re.search(r'PracticallyInf\(\)\s*\{\s*return\s*([0-9.eE+-]+)\s*;', txt)
+    b = re.search(r'PracticallyMinusInf\(\)\s*\{\s*return\s*([0-9.eE+-]+)\s*;', txt)
+    if not a or not b:
+        raise extract.ExtractionError('PracticallyInf / PracticallyMinusInf not found in constr_keeper.h')
+    return a.group(1), b.group(1)
+
+
 def _harnesses(tier, seed):
     hs = [h_narrow()] + [h_arr(n) for n in ARR] + [h_common_type(), h_count_fixed()]
     hs += fixed_box_harnesses() + range_harnesses()
-    hs += [h_abs(), h_abs_point(), h_ifthen(), h_minmax('Min'), h_minmax('Max'), h_round(), h_fixeq(), h_andor('And'), h_andor('Or')]
+    hs += [h_abs(), h_abs_point(), h_ifthen(), h_minmax('Min'), h_minmax('Max'), h_round(), h_fixeq(), h_andor('And'), h_andor('Or'), h_div()]
     return hs
